@@ -714,10 +714,47 @@ fn c19(rng: &mut Rng, _idx: usize) -> Case {
         }
         c.stat("missing_root_118", 1);
     }
+    if missing > 1 && rng.chance(1, 8) {
+        // many top-level branches (beyond the inline capacity of 30 of a group), with terms two
+        // and three levels below them
+        let used: Vec<u32> = f.terms.iter().map(|t| t.0).collect();
+        let nroots = *rng.pick(&[29usize, 30, 31, 32, 40, 64]);
+        let ids = gen_ids(rng, nroots + 6, &used);
+        for id in &ids {
+            f.terms.push((*id, gen_name(rng)));
+        }
+        let (roots, deep) = ids.split_at(nroots);
+        for r in roots {
+            f.edges.push((1, *r));
+        }
+        // child - grandchild - great-grandchild below random roots, one also below HP:118
+        f.edges.push((*rng.pick(roots), deep[0]));
+        f.edges.push((deep[0], deep[1]));
+        f.edges.push((deep[1], deep[2]));
+        f.edges.push((*rng.pick(roots), deep[3]));
+        f.edges.push((deep[3], deep[4]));
+        f.edges.push((118, deep[4]));
+        f.edges.push((deep[4], deep[5]));
+        c.stat(&format!("many_modifier_roots_{nroots}"), 1);
+    }
     facts_stats(&f, &mut c);
     let top = f.edges.iter().filter(|e| e.0 == 1).count() as u64;
     c.stat("top_level_branches", top);
-    facts_to_prog(rng, &f, &ProgOpts { shuffle: true, failing_permille: 0, build_defaults: true, slot: 0 }, &mut c);
+    if missing > 1 && rng.chance(1, 3) {
+        // binary route: top-level branches and categories may be flagged obsolete / replaced and
+        // keep their links
+        let mut flags = gen_flags(rng, &mut f);
+        for e in f.edges.clone() {
+            if (e.0 == 1 || e.0 == 118) && e.1 != 118 && rng.chance(1, 4) && !flags.iter().any(|x| x.0 == e.1) {
+                flags.push((e.1, true, None));
+                c.stat("obsolete_top_level_or_category", 1);
+            }
+        }
+        let fv = 2 + rng.below(2) as u8;
+        facts_to_fops(rng, &f, &flags, fv, 0, true, &mut c);
+    } else {
+        facts_to_prog(rng, &f, &ProgOpts { shuffle: true, failing_permille: 0, build_defaults: true, slot: 0 }, &mut c);
+    }
     c.op("dump 0".to_string());
     c.op("oracle defaults 0".to_string());
     c.nontrivial = missing > 1 && top >= 2;
@@ -778,6 +815,16 @@ fn c10(rng: &mut Rng, idx: usize) -> Case {
     for k in 0..2 {
         for r in f.recs[k].iter().take(5) {
             queries.push(r.1.clone());
+            // near misses of an existing name: other letter case, surrounding white space, a
+            // trailing NUL / line end, the name twice
+            queries.push(r.1.to_lowercase());
+            queries.push(r.1.to_uppercase());
+            queries.push(format!("{} ", r.1));
+            queries.push(format!(" {}", r.1));
+            queries.push(format!("{}\n", r.1));
+            queries.push(format!("{}\t", r.1));
+            queries.push(format!("{}\0", r.1));
+            queries.push(format!("{0}{0}", r.1));
             let chars: Vec<char> = r.1.chars().collect();
             if chars.len() >= 2 {
                 let a = rng.below(chars.len() as u64) as usize;
